@@ -79,7 +79,8 @@ static Label* mklabel(const char* text, double rot, double mag, bool refl) {
     l->x_reflection = refl;
     return l;
 }
-// which: 0 polygon, 1 path, 2 label, 3 sref, 4 aref, 5 by-name ref, 6 box-like + property, 7 mixed, 8 big polygon (thorough)
+// which: 0 polygon, 1 path, 2 label, 3 sref, 4 aref, 5 by-name ref, 6 box-like + property, 7 mixed, 8 big polygon (thorough),
+// 9 many cells, 10 every path kind (thorough), 11 labels (thorough), 12 repetitions (thorough), 13 long strings
 static Library build_library(int which) {
     Library lib = {};
     lib.init(which % 2 ? "LIB" : "LIBX", 1e-6, 1e-9);
@@ -127,6 +128,84 @@ static Library build_library(int which) {
         for (int i = 0; i < n; i++) { double a = 2 * M_PI * i / n; pts.push_back(Vec2{1000 * cos(a), 1000 * sin(a)}); }
         top->polygon_array.append(mkpoly(pts, make_tag(1, 1)));
     }
+    if (which == 9) {  // many cells: the name maps of read_gds / read_rawcells / gds_info grow several times; chain + fan-out dependencies
+        lib.cell_array.append(leaf);
+        Cell* prev = leaf;
+        for (int i = 0; i < 22; i++) {
+            Cell* c = (Cell*)allocate_clear(sizeof(Cell));
+            c->init(fmt("CELL_%02d%s", i, i % 3 == 0 ? "_LONGER_NAME" : "").c_str());
+            c->polygon_array.append(mkpoly({{0, 0}, {1.0 + i, 0}, {0, 1}}, make_tag(i % 7, i % 3)));
+            Reference* r = (Reference*)allocate_clear(sizeof(Reference));
+            r->init(prev);
+            r->origin = Vec2{(double)i, 1};
+            c->reference_array.append(r);
+            if (i % 4 == 1) { Reference* r2 = (Reference*)allocate_clear(sizeof(Reference)); r2->init(leaf); r2->magnification = 0.5; c->reference_array.append(r2); }
+            lib.cell_array.append(c);
+            prev = c;
+        }
+        Reference* r = (Reference*)allocate_clear(sizeof(Reference));
+        r->init(prev);
+        top->reference_array.append(r);
+        lib.cell_array.append(top);
+        return lib;
+    }
+    if (which == 10) {  // every end type, a path written as polygons (not simple), absolute width, a RobustPath
+        for (EndType e : {EndType::Flush, EndType::Round, EndType::HalfWidth, EndType::Extended, EndType::Smooth}) top->flexpath_array.append(mkpath(e, e == EndType::Extended));
+        FlexPath* ns = mkpath(EndType::Flush, false);
+        ns->simple_path = false;
+        top->flexpath_array.append(ns);
+        FlexPath* aw = mkpath(EndType::Flush, false);
+        aw->scale_width = false;
+        top->flexpath_array.append(aw);
+        RobustPath* rp = (RobustPath*)allocate_clear(sizeof(RobustPath));
+        rp->init(Vec2{0, 0}, 1, 0.4, 0, 0.01, 1000, make_tag(4, 4));
+        rp->simple_path = true;
+        rp->scale_width = true;
+        rp->segment(Vec2{6, 0}, NULL, NULL, false);
+        rp->segment(Vec2{6, 2}, NULL, NULL, false);
+        top->robustpath_array.append(rp);
+    }
+    if (which == 11) {  // labels: every anchor, properties, odd and even text lengths
+        const Anchor an[] = {Anchor::NW, Anchor::N, Anchor::NE, Anchor::W, Anchor::O, Anchor::E, Anchor::SW, Anchor::S, Anchor::SE};
+        for (int i = 0; i < 9; i++) {
+            Label* l = mklabel(i % 2 ? "even" : "odd", 0.25 * i, i % 3 ? 1 : 1.5, i % 2);
+            l->anchor = an[i];
+            if (i % 4 == 0) set_gds_property(l->properties, 10 + i, "label property");
+            top->label_array.append(l);
+        }
+    }
+    if (which == 12) {  // references with explicit / regular (oblique) repetitions, polygons with every repetition kind
+        Reference* r = ref(0);
+        r->repetition.type = RepetitionType::Explicit;
+        r->repetition.offsets.append(Vec2{3, 1}); r->repetition.offsets.append(Vec2{-2, 5}); r->repetition.offsets.append(Vec2{7, 7});
+        top->reference_array.append(r);
+        Reference* r2 = ref(0);
+        r2->repetition.type = RepetitionType::Regular;
+        r2->repetition.columns = 3; r2->repetition.rows = 2; r2->repetition.v1 = Vec2{4, 1}; r2->repetition.v2 = Vec2{-1, 5};
+        top->reference_array.append(r2);
+        Polygon* p = mkpoly({{0, 0}, {2, 0}, {2, 1}}, make_tag(9, 9));
+        p->repetition.type = RepetitionType::ExplicitX;
+        p->repetition.coords.append(3); p->repetition.coords.append(-4);
+        top->polygon_array.append(p);
+        Polygon* q = mkpoly({{0, 0}, {1, 0}, {1, 2}, {0, 2}}, make_tag(9, 10));
+        q->repetition.type = RepetitionType::Regular;
+        q->repetition.columns = 2; q->repetition.rows = 2; q->repetition.v1 = Vec2{3, 0.5}; q->repetition.v2 = Vec2{0.5, 3};
+        top->polygon_array.append(q);
+    }
+    if (which == 13) {  // long strings: 32-character cell name, 126-byte property value, several properties per element
+        Cell* c = (Cell*)allocate_clear(sizeof(Cell));
+        c->init("A_CELL_NAME_OF_EXACTLY_32_CHARS_");
+        Polygon* p = mkpoly({{0, 0}, {2, 0}, {2, 1}, {0, 1}}, make_tag(11, 12));
+        std::string longv(125, 'v');
+        set_gds_property(p->properties, 1, longv.c_str());
+        set_gds_property(p->properties, 2, "x");
+        set_gds_property(p->properties, 3, "");
+        c->polygon_array.append(p);
+        Reference* r = (Reference*)allocate_clear(sizeof(Reference));
+        r->init(c);
+        top->reference_array.append(r);
+        lib.cell_array.append(c);
+    }
     lib.cell_array.append(leaf);
     lib.cell_array.append(top);
     return lib;
@@ -142,7 +221,8 @@ static void parse_records(CorpusFile& f) {
 }
 static void build_corpus(bool thorough) {
     std::string tmp = R->scratch + "/corpus.tmp";
-    for (int which = 0; which <= (thorough ? 8 : 7); which++) {
+    for (int which = 0; which <= 13; which++) {
+        if (!thorough && (which == 8 || which == 10 || which == 11 || which == 12)) continue;   // quick: the seven basic kinds, the mix, many cells, long strings
         for (uint64_t maxp : {(uint64_t)199, (uint64_t)5}) {
             if (maxp == 5 && which != 0 && which != 7) continue;
             Library lib = build_library(which);
@@ -166,8 +246,9 @@ static void build_corpus(bool thorough) {
     std::vector<OC> ocs = {{0, 0}, {OASIS_CONFIG_INCLUDE_CRC32, 0}, {OASIS_CONFIG_INCLUDE_CHECKSUM32, 0}, {OASIS_CONFIG_STANDARD_PROPERTIES | OASIS_CONFIG_INCLUDE_CRC32, 0},
                            {0, 6}, {OASIS_CONFIG_INCLUDE_CRC32, 6}, {OASIS_CONFIG_INCLUDE_CHECKSUM32, 6}, {OASIS_CONFIG_STANDARD_PROPERTIES | OASIS_CONFIG_DETECT_ALL | OASIS_CONFIG_INCLUDE_CHECKSUM32, 6}};
     for (size_t k = 0; k < ocs.size(); k++) {
-        for (int which : {7, 0}) {
+        for (int which : {7, 0, 9, 10, 12, 13}) {
             if (which == 0 && !thorough && k % 2) continue;
+            if (which >= 9 && (!thorough || (k != 0 && k != 3 && k != 5 && k != 7))) continue;
             Library lib = build_library(which);
             ErrorCode e = lib.write_oas(tmp.c_str(), 1e-3, ocs[k].level, ocs[k].flags);
             if (e != ErrorCode::NoError) R->internal_error("corpus write_oas failed");
